@@ -1,20 +1,32 @@
 import TracklibVerif.Model.Proj
+import TracklibVerif.Model.ProjTrack
 import TracklibVerif.Drv.Util
 /-! Driver handler for C20 (projection on a segment / polyline), `Float` instance of `Model/Proj`.
 Floats are IEEE bit patterns. Commands:
   seg  x1 y1 x2 y2 x y          → `ok d xp yp`            | `err zerodiv`
-  poly <X list> <Y list> x y    → `ok d xp yp i`          | `err zerodiv` | `err unbound`
+  poly <X list> <Y list> x y    → `ok d xp yp i`          | `err zerodiv` | `err index` (empty) | `err overflow`
+                                  (lists of Python floats and a Python float query: `v ** 2` raises on overflow)
   map  <X list> <Y list> x y    → `ok xp yp d i`          (mapOnTrack with a coordinate)
   mapt <X list> <Y list> <QX list> <QY list> → `ok xp,yp,d,i;…` (mapOnTrack with a track)
   segg np x1 y1 x2 y2 x y       → as `seg`; `np` = `1` when the segment is a numpy array (`-c / b` never raises)
-  polyxy np <X list> <Y list> x y → as `poly`, the two sequences as given (any lengths) | `err index`
+  polyxy np npq <X list> <Y list> x y → as `poly`, the two sequences as given (any lengths) | `err index`; `npq` = `1` when
+                                  `x - Xp[0]` is a numpy scalar (numpy container or numpy query: `v ** 2` never raises)
   map3 <X> <Y> <Z> x y z        → `ok xp yp zp d i`       (mapOnTrack with a 3D coordinate on a 3D track)
   mapt3 <X> <Y> <Z> <QX> <QY> <QZ> → `ok xp,yp,zp,d,i;…`  (mapOnTrack with a 3D track of queries)
+  mapf <names> <cols> <QX> <QY> <QZ> <QT> <refs> → `ok call …` | `err kind call …`: chained `mapOnTrack(track, track)` on track
+       OBJECTS (`Model/ProjTrack.lean` `mapChain`): the track of queries with its feature table (`names`: `,`-list of
+       feature names, `cols`: its columns, `;` between columns) and time stamps `QT`, snapped on `refs[0]`, the output track
+       on `refs[1]`, … (`refs`: `|` between tracks, each `X;Y;Z`). One `call` per completed call:
+       `names/ts/rows` = the output track's feature names, time stamps, and rows `x,y,z,dist,edge` (`;` between rows),
+       `dist` / `edge` read from the output's feature table; `err kind` = the exception that stopped the chain.
 The `proj_polyligne` requests (`poly`, `polyxy`) are answered with the SENTINEL-FAITHFUL forms of the model
 (`projPolyligneS`, `projPolyligneXYS`, sentinel `inf = 1.0 / 0.0`, the double Python reads `1e400` as): the test is
-`dist < inf` as in the code, so an input whose distances are all `inf`/NaN answers `err unbound` where Python raises
-`UnboundLocalError` (`Tie/C20.lean` `tie_proj_polyligne_exact`). The `mapOnTrack` requests (`map`, `mapt`, `map3`, `mapt3`)
-still go through the `none`-state forms (`projOnTrack`, …), equal to the former whenever a distance met is finite. -/
+`dist < inf` as in the code, so an input whose distances are all `inf`/NaN keeps nothing and is answered from the first
+vertex by `finishS` (`if distmin == 1e400: distmin = math.sqrt((x - xproj) ** 2 + (y - yproj) ** 2)`), with `sqPy`: Python's
+float `**` raises `OverflowError` where the square leaves the double range, numpy's returns `inf`
+(`Tie/C20.lean` `tie_proj_polyligne_exact` ties the same model with the translator's total `pow`). The `mapOnTrack` requests (`map`, `mapt`, `map3`, `mapt3`,
+`mapf`) still go through the `none`-state forms (`projOnTrack`, …), equal to the former whenever a distance met is finite
+(the harness sends no `mapOnTrack` request with a non-finite / overflowing coordinate). -/
 namespace TV.Drv.C20
 open TV.Proj TV.Drv
 
@@ -26,7 +38,15 @@ def inf : Float := 1.0 / 0.0
 
 def showErr : Err → String
   | .zerodiv => "err zerodiv"
-  | .unbound => "err unbound"
+  | .index => "err index"
+  | .overflow => "err overflow"
+
+/-- `v ** 2` as Python evaluates it: `float.__pow__` raises `OverflowError` when the result of a finite base is infinite;
+with a numpy scalar (`np`) the result is `inf` (and a RuntimeWarning). The value is `v * v` (libm's `pow(v, 2.0)` up to its
+rounding; numpy squares by multiplication). -/
+def sqPy (np : Bool) (v : Float) : Except Err Float :=
+  let r := v * v
+  if !np && r.isInf && v.isFinite then .error .overflow else .ok r
 
 def zipPts? (xs ys : List Float) : Option (List (Float × Float)) :=
   if xs.length == ys.length then some (xs.zip ys) else none
@@ -47,8 +67,63 @@ def zip3? (xs ys zs : List Float) : Option (List (Float × Float × Float)) :=
 def showRow3 (sep : String) (r : (Float × Float × Float) × Float × Nat) : String :=
   sep.intercalate [showFloat r.1.1, showFloat r.1.2.1, showFloat r.1.2.2, showFloat r.2.1, toString r.2.2]
 
+open TV.ProjTrack in
+def showErrT : ErrT → String
+  | .proj e => showErrX e
+  | .feat .empty => "err af"
+  | .feat .index => "err index"
+  | .feat _ => "err feat"
+
+/-- columns (one list per feature) → the `features` lists of the `n` observations -/
+def rowsOfCols (n : Nat) (cols : List (List Float)) : Option (List (List Float)) :=
+  (List.range n).mapM (fun j => cols.mapM (fun c => c[j]?))
+
+/-- one track `X;Y;Z` of the `refs` token, without analytical feature -/
+def refTrack? (s : String) : Option (TV.Features.St Float) :=
+  match (splitTok s ';').mapM floatList? with
+  | some [xs, ys, zs] =>
+    if xs.length == ys.length && ys.length == zs.length then
+      some { dico := [], rows := xs.map (fun _ => []), xs := xs, ys := ys, zs := zs, ts := xs.map (fun _ => 0.0) }
+    else none
+  | _ => none
+
+open TV.ProjTrack in
+/-- an output track as `names/ts/rows`, `dist` and `edge` read from its feature table -/
+def showCall (t : TV.Features.St Float) : Option String :=
+  match column t "dist", column t "edge" with
+  | some ds, some es =>
+    if ds.length == t.xs.length && es.length == t.xs.length && t.ys.length == t.xs.length && t.zs.length == t.xs.length then
+      let rows := (t.xs.zip (t.ys.zip (t.zs.zip (ds.zip es)))).map
+        (fun r => ",".intercalate [showFloat r.1, showFloat r.2.1, showFloat r.2.2.1, showFloat r.2.2.2.1, showFloat r.2.2.2.2])
+      some ("/".intercalate [joinWith "," (t.dico.map (fun p => p.1)), showList showFloat t.ts, joinWith ";" rows])
+    else none
+  | _, _ => none
+
+open TV.ProjTrack in
+def handleMapf (names cols qx qy qz qt refs : String) : String :=
+  match floatListList? cols, floatList? qx, floatList? qy, floatList? qz, floatList? qt, (splitTok refs '|').mapM refTrack? with
+  | some cols, some qx, some qy, some qz, some qt, some refs =>
+    let ns := splitTok names ','
+    if ns.length != cols.length || qy.length != qx.length || qz.length != qx.length || qt.length != qx.length
+        || cols.any (fun c => c.length != qx.length) then "bad-request" else
+    match rowsOfCols qx.length cols with
+    | none => "bad-request"
+    | some rows =>
+      let q : TV.Features.St Float :=
+        { dico := ns.zip (List.range ns.length), rows := rows, xs := qx, ys := qy, zs := qz, ts := qt }
+      let res := mapChain Float.sqrt eps (fun n => Float.ofNat n) refs q
+      match res.1.mapM showCall with
+      | none => "bad-model"
+      | some calls =>
+        let head := match res.2 with
+          | none => "ok"
+          | some e => showErrT e
+        " ".intercalate (head :: calls)
+  | _, _, _, _, _, _ => "bad-request"
+
 def handle (cmd : String) (args : List String) : String :=
   match cmd, args with
+  | "mapf", [names, cols, qx, qy, qz, qt, refs] => handleMapf names cols qx qy qz qt refs
   | "seg", [a, b, c, d, e, f] =>
     match [a, b, c, d, e, f].mapM float? with
     | some [x1, y1, x2, y2, x, y] =>
@@ -62,7 +137,7 @@ def handle (cmd : String) (args : List String) : String :=
       match zipPts? xs ys with
       | none => "bad-request"
       | some pts =>
-        match projPolyligneS inf Float.sqrt eps pts x y with
+        match projPolyligneS inf Float.sqrt (sqPy false) eps pts x y with
         | .error e => showErr e
         | .ok r => s!"ok {showFloat r.1} {showFloat r.2.1} {showFloat r.2.2.1} {r.2.2.2}"
     | _, _, _, _ => "bad-request"
@@ -93,13 +168,13 @@ def handle (cmd : String) (args : List String) : String :=
       | .error e => showErr e
       | .ok r => s!"ok {showFloat r.1} {showFloat r.2.1} {showFloat r.2.2}"
     | _, _ => "bad-request"
-  | "polyxy", [np, xs, ys, qx, qy] =>
-    match bool? np, floatList? xs, floatList? ys, float? qx, float? qy with
-    | some np, some xs, some ys, some x, some y =>
-      match projPolyligneXYS np inf Float.sqrt eps xs ys x y with
+  | "polyxy", [np, npq, xs, ys, qx, qy] =>
+    match bool? np, bool? npq, floatList? xs, floatList? ys, float? qx, float? qy with
+    | some np, some npq, some xs, some ys, some x, some y =>
+      match projPolyligneXYS np inf Float.sqrt (sqPy npq) eps xs ys x y with
       | .error e => showErrX e
       | .ok r => s!"ok {showFloat r.1} {showFloat r.2.1} {showFloat r.2.2.1} {r.2.2.2}"
-    | _, _, _, _, _ => "bad-request"
+    | _, _, _, _, _, _ => "bad-request"
   | "map3", [xs, ys, zs, qx, qy, qz] =>
     match floatList? xs, floatList? ys, floatList? zs, [qx, qy, qz].mapM float? with
     | some xs, some ys, some zs, some [x, y, z] =>
